@@ -25,6 +25,7 @@ pub struct Denver {
     /// vertex coordinates as written in the file (f64)
     pub xy: Vec<(f64, f64)>,
     pub speeds_kph: Vec<f64>,
+    pub grades: Vec<f64>,
     pub headings: Vec<(i32, Option<i32>)>,
     pub geoms: Vec<Vec<(f64, f64)>>,
     pub vertex_uuids: Vec<String>,
@@ -75,6 +76,7 @@ fn load() -> Result<Denver, String> {
     let ne = edges.len();
     let one_col = |name: &str| -> Result<Vec<String>, String> { Ok(gz_text(&d.join(name))?.lines().map(|l| l.trim().to_string()).filter(|l| !l.is_empty()).collect()) };
     let speeds_kph: Vec<f64> = one_col("edges-posted-speed-enumerated.txt.gz")?.iter().map(|s| s.parse().map_err(|e| format!("speed {s}: {e}"))).collect::<Result<_, _>>()?;
+    let grades: Vec<f64> = one_col("edges-grade-enumerated.txt.gz")?.iter().map(|s| s.parse().map_err(|e| format!("grade {s}: {e}"))).collect::<Result<_, _>>()?;
     let ht = gz_text(&d.join("edges-headings-enumerated.csv.gz"))?;
     let mut headings = vec![];
     for l in ht.lines().skip(1).filter(|l| !l.trim().is_empty()) {
@@ -96,11 +98,11 @@ fn load() -> Result<Denver, String> {
         geoms.push(pts);
     }
     let vertex_uuids = one_col("vertices-uuid-enumerated.txt.gz")?;
-    if speeds_kph.len() != ne || headings.len() != ne || geoms.len() != ne || vertex_uuids.len() != nv {
+    if speeds_kph.len() != ne || grades.len() != ne || headings.len() != ne || geoms.len() != ne || vertex_uuids.len() != nv {
         return Err(format!("table lengths: {} speeds, {} headings, {} geometries for {ne} edges; {} identifiers for {nv} vertices", speeds_kph.len(), headings.len(), geoms.len(), vertex_uuids.len()));
     }
     let net = RefNet { coords: xy.iter().map(|p| (p.0 as f32, p.1 as f32)).collect(), edges, motifs: vec!["downtown_denver_example".into()], metric: true };
-    Ok(Denver { net, xy, speeds_kph, headings, geoms, vertex_uuids })
+    Ok(Denver { net, xy, speeds_kph, grades, headings, geoms, vertex_uuids })
 }
 
 pub fn denver() -> Result<&'static Denver, String> {
@@ -153,6 +155,57 @@ impl Denver {
     }
 }
 
+/// one `[[traversal.vehicles]]` entry of the shipped energy configuration, as far as this module reads it
+#[derive(Clone, Debug)]
+pub struct Vehicle {
+    pub name: String,
+    pub kind: String,
+    pub model_file: Option<String>,
+    pub rate_unit: Option<String>,
+    pub adjustment: f64,
+    pub capacity_kwh: Option<f64>,
+}
+
+fn toml_str(chunk: &str, key: &str) -> Option<String> {
+    chunk.lines().find_map(|l| {
+        let l = l.trim();
+        let rest = l.strip_prefix(key)?.trim_start();
+        let rest = rest.strip_prefix('=')?.trim();
+        Some(rest.trim_matches('"').to_string())
+    })
+}
+
+pub fn vehicles() -> Result<Vec<Vehicle>, String> {
+    let text = std::fs::read_to_string(PathBuf::from(DIR).join("osm_default_energy.toml")).map_err(|e| e.to_string())?;
+    let body = text.split("[cost.weights]").next().unwrap_or("");
+    let mut out = vec![];
+    for chunk in body.split("[[traversal.vehicles]]").skip(1) {
+        // the entry's own keys come before its first sub-table
+        let head = chunk.split("\n[").next().unwrap_or("");
+        let name = toml_str(head, "name").ok_or("vehicle without a name")?;
+        let kind = toml_str(head, "type").ok_or("vehicle without a type")?;
+        let cap = toml_str(head, "battery_capacity").and_then(|v| v.parse::<f64>().ok());
+        if cap.is_some() && toml_str(head, "battery_capacity_unit").as_deref() != Some("kilowatt_hours") {
+            return Err(format!("vehicle {name}: battery capacity in an unexpected unit"));
+        }
+        out.push(Vehicle { name, kind, model_file: toml_str(head, "model_input_file"), rate_unit: toml_str(head, "energy_rate_unit"), adjustment: toml_str(head, "real_world_energy_adjustment").and_then(|v| v.parse().ok()).unwrap_or(1.0), capacity_kwh: cap });
+    }
+    if out.is_empty() {
+        return Err("no vehicles found in the shipped energy configuration".into());
+    }
+    Ok(out)
+}
+
+/// the monitor's own copy of a shipped vehicle's prediction model (same file, same interpolation grid)
+fn oracle_model(v: &Vehicle) -> Result<routee_compass_powertrain::routee::prediction::PredictionModelRecord, String> {
+    use routee_compass_core::model::unit::{EnergyRateUnit, Grade, GradeUnit, Speed, SpeedUnit};
+    use routee_compass_powertrain::routee::prediction::{load_prediction_model, model_type::ModelType};
+    let file = v.model_file.as_ref().ok_or("no model file")?;
+    let eru: EnergyRateUnit = serde_json::from_value(json!(v.rate_unit.clone().ok_or("no rate unit")?)).map_err(|e| e.to_string())?;
+    let mt = ModelType::Interpolate { underlying_model_type: Box::new(ModelType::Smartcore), speed_lower_bound: Speed::new(0.0), speed_upper_bound: Speed::new(100.0), speed_bins: 101, grade_lower_bound: Grade::new(-0.2), grade_upper_bound: Grade::new(0.2), grade_bins: 41 };
+    load_prediction_model("oracle".into(), &PathBuf::from(DIR).join(file), mt, SpeedUnit::MilesPerHour, GradeUnit::Decimal, eru, None, None, None).map_err(|e| e.to_string())
+}
+
 #[derive(Clone, Copy, PartialEq, Debug)]
 pub enum Cfg {
     /// osm_default_distance.toml exactly as shipped. it declares no `distance` state feature (the distance traversal
@@ -164,6 +217,9 @@ pub enum Cfg {
     /// time in minutes for the turn delays)
     Distance,
     Speed,
+    /// osm_default_energy.toml: twenty bundled vehicles (interpolated random forests), the speed table as the nested
+    /// time model, grades, turn delays
+    Energy,
 }
 
 impl Cfg {
@@ -171,6 +227,7 @@ impl Cfg {
         match self {
             Cfg::DistanceAsShipped | Cfg::Distance => "osm_default_distance.toml",
             Cfg::Speed => "osm_default_speed.toml",
+            Cfg::Energy => "osm_default_energy.toml",
         }
     }
     fn name(&self) -> &'static str {
@@ -178,6 +235,7 @@ impl Cfg {
             Cfg::DistanceAsShipped => "distance-as-shipped",
             Cfg::Distance => "distance",
             Cfg::Speed => "speed",
+            Cfg::Energy => "energy",
         }
     }
     fn build(&self) -> Result<CompassApp, String> {
@@ -205,6 +263,8 @@ struct Q {
     d: (Vec<usize>, f64),
     /// weights of the expansion (speed configuration with a grid section), else None
     expansions: Vec<(String, Option<(f64, f64)>)>,
+    /// the field of the expanded queries that tells the expansions apart
+    key: &'static str,
 }
 
 fn gen_point(rng: &mut Rng, dv: &Denver) -> (f64, f64) {
@@ -226,7 +286,9 @@ const TOL_M: f64 = 200.0;
 
 /// one batch through one of the shipped configurations; every oracle clause carries the property it belongs to
 /// and is evaluated only when `prop` is that property.
-fn batch_case(prop: &str, cfg: Cfg, app: &CompassApp, dv: &Denver, case_no: usize, rng: &mut Rng, rep: &mut Report, tier: Tier) {
+type Models = std::collections::HashMap<String, (Vehicle, Option<routee_compass_powertrain::routee::prediction::PredictionModelRecord>)>;
+
+fn batch_case(prop: &str, cfg: Cfg, app: &CompassApp, dv: &Denver, models: &Models, case_no: usize, rng: &mut Rng, rep: &mut Report, tier: Tier) {
     let n = rng.urange(4, if tier.thorough { 60 } else { 30 });
     let mut qs: Vec<Q> = vec![];
     for i in 0..n {
@@ -249,12 +311,33 @@ fn batch_case(prop: &str, cfg: Cfg, app: &CompassApp, dv: &Denver, case_no: usiz
             query["weights"] = json!({"distance": wd, "time": wt});
             expansions = vec![(String::new(), Some((wd, wt)))];
         }
+        let mut key = "name";
+        if cfg == Cfg::Energy {
+            key = "model_name";
+            let vs = vehicles().unwrap_or_default();
+            let names: Vec<String> = vs.iter().map(|v| v.name.clone()).collect();
+            if rng.chance(0.3) {
+                // the documented comparison of vehicles: a grid over model_name
+                let mut picks = names.clone();
+                rng.shuffle(&mut picks);
+                picks.truncate(rng.urange(2, 4));
+                query["grid_search"] = json!({"model_name": picks});
+                expansions = picks.iter().map(|n| (n.clone(), None)).collect();
+            } else {
+                let n = rng.pick(&names).clone();
+                query["model_name"] = json!(n);
+                expansions = vec![(n, None)];
+            }
+            if rng.chance(0.4) {
+                query["starting_soc_percent"] = json!((rng.frange(5.0, 100.0) * 4.0).round() / 4.0);
+            }
+        }
         let near = |p: (f64, f64)| {
             let (_, at) = dv.nearest((p.0 as f32, p.1 as f32));
             let m = at.iter().map(|v| hav_m_f64(((p.0 as f32) as f64, (p.1 as f32) as f64), (dv.net.coords[*v].0 as f64, dv.net.coords[*v].1 as f64))).fold(f64::INFINITY, f64::min);
             (at, m)
         };
-        qs.push(Q { qid, query, o: near(o), d: near(d), expansions });
+        qs.push(Q { qid, query, o: near(o), d: near(d), expansions, key });
     }
     let batch: Vec<Value> = qs.iter().map(|q| q.query.clone()).collect();
     let par = *rng.pick(&[None, Some(1u64), Some(2), Some(3), Some(8), Some(16)]);
@@ -308,19 +391,19 @@ fn batch_case(prop: &str, cfg: Cfg, app: &CompassApp, dv: &Denver, case_no: usiz
                 continue;
             }
             if prop == "C17" && q.o.1 < TOL_M * 0.99 && q.d.1 < TOL_M * 0.99 && q.query.get("grid_search").is_some() {
-                let mut names: Vec<String> = mine.iter().map(|r| r["request"]["name"].as_str().unwrap_or("").to_string()).collect();
+                let mut names: Vec<String> = mine.iter().map(|r| r["request"][q.key].as_str().unwrap_or("").to_string()).collect();
                 let mut want: Vec<String> = q.expansions.iter().map(|x| x.0.clone()).collect();
                 names.sort();
                 want.sort();
                 if names != want || mine.iter().any(|r| r["request"].get("grid_search").is_some()) {
-                    rep.violate("C17|shipped|speed|expansion-multiset", format!("query {} expanded to {names:?}, the grid section lists {want:?}", q.qid), || json!({"config": cfg.file(), "query": q.query}));
+                    rep.violate(&format!("C17|shipped|{}|expansion-multiset", cfg.name()), format!("query {} expanded to {names:?}, the grid section lists {want:?}", q.qid), || json!({"config": cfg.file(), "query": q.query}));
                     continue;
                 }
                 for r in &mine {
-                    if let Some((wd, wt)) = q.expansions.iter().find(|x| Some(x.0.as_str()) == r["request"]["name"].as_str()).and_then(|x| x.1) {
+                    if let Some((wd, wt)) = q.expansions.iter().find(|x| Some(x.0.as_str()) == r["request"][q.key].as_str()).and_then(|x| x.1) {
                         if q.expansions.len() > 1 || q.query.get("grid_search").is_some() {
                             if r["request"]["weights"]["distance"].as_f64() != Some(wd) || r["request"]["weights"]["time"].as_f64() != Some(wt) || r["request"]["origin_x"] != q.query["origin_x"] {
-                                rep.violate("C17|shipped|speed|expansion-fields", format!("expansion {} of {} carries weights {} (listed {wd}/{wt})", r["request"]["name"], q.qid, r["request"]["weights"]), || json!({"config": cfg.file(), "query": q.query, "response_request": r["request"]}));
+                                rep.violate(&format!("C17|shipped|{}|expansion-fields", cfg.name()), format!("expansion {} of {} carries weights {} (listed {wd}/{wt})", r["request"][q.key], q.qid, r["request"]["weights"]), || json!({"config": cfg.file(), "query": q.query, "response_request": r["request"]}));
                             }
                         }
                     }
@@ -449,7 +532,7 @@ fn batch_case(prop: &str, cfg: Cfg, app: &CompassApp, dv: &Denver, case_no: usiz
                         continue;
                     }
                 };
-                if du != DistanceUnit::Miles || (cfg == Cfg::Speed && tu != Some(TimeUnit::Minutes)) {
+                if du != DistanceUnit::Miles || (matches!(cfg, Cfg::Speed | Cfg::Energy) && tu != Some(TimeUnit::Minutes)) {
                     rep.violate("C03|shipped|declared-units", format!("the shipped configuration asks for miles and minutes, the response declares {} / {}", sm["distance"], sm["time"]), replay);
                     continue;
                 }
@@ -460,7 +543,7 @@ fn batch_case(prop: &str, cfg: Cfg, app: &CompassApp, dv: &Denver, case_no: usiz
                 for (i, e) in ids.iter().enumerate() {
                     dist += U::conv_dist(dv.net.edges[*e].len_m, DistanceUnit::Meters, du);
                     if let (Some(st), Some(tu)) = (st, tu) {
-                        let mut dt = if cfg == Cfg::Speed { minutes(*e) * 60.0 } else { 0.0 };
+                        let mut dt = if matches!(cfg, Cfg::Speed | Cfg::Energy) { minutes(*e) * 60.0 } else { 0.0 };
                         if i > 0 {
                             let dl = dv.turn_delay_s(ids[i - 1], *e);
                             if dl > 0.0 {
@@ -501,6 +584,7 @@ fn batch_case(prop: &str, cfg: Cfg, app: &CompassApp, dv: &Denver, case_no: usiz
             if prop == "C02" {
                 let (wd, wt) = match cfg {
                     Cfg::Distance | Cfg::DistanceAsShipped => (1.0, 0.0),
+                    Cfg::Energy => (1.0, 1.0),
                     Cfg::Speed => q.expansions.iter().find(|x| Some(x.0.as_str()) == r["request"]["name"].as_str() || x.0.is_empty()).and_then(|x| x.1).unwrap_or((1.0, 1.0)),
                 };
                 if wt != 0.0 {
@@ -521,6 +605,84 @@ fn batch_case(prop: &str, cfg: Cfg, app: &CompassApp, dv: &Denver, case_no: usiz
                     if ids.len() >= 3 {
                         rep.nontrivial(hash_str(&format!("shipped|{}|{o}|{d}", cfg.name())));
                     }
+                }
+                continue;
+            }
+            // ---- C08: energy and charge along the route follow the shipped vehicle's own model
+            if prop == "C08" {
+                use routee_compass_core::model::unit::{Grade, GradeUnit, Speed, SpeedUnit};
+                let name = r["request"]["model_name"].as_str().unwrap_or("");
+                let (veh, rec) = match models.get(name) {
+                    Some((v, Some(rec))) => (v, rec),
+                    _ => {
+                        rep.count("shipped_routes_of_vehicles_without_a_single_model_(phev)_skipped", 1);
+                        continue;
+                    }
+                };
+                let feature = if veh.kind == "bev" { "energy_electric" } else { "energy_liquid" };
+                // the energy unit of the vehicle's own rate unit (gallons_gasoline_per_mile -> gallons_gasoline)
+                let want_unit = veh.rate_unit.as_deref().and_then(|u| u.split("_per_").next()).unwrap_or("");
+                let se = match slot(feature) {
+                    Some(i) if sm[feature]["energy_unit"].as_str() == Some(want_unit) => i,
+                    _ => {
+                        rep.violate(&format!("C08|shipped|{}|energy-feature-declaration", veh.kind), format!("vehicle {name}: the response's state model declares {}", sm[feature]), replay);
+                        continue;
+                    }
+                };
+                let sb = slot("battery_state");
+                let soc0 = q.query["starting_soc_percent"].as_f64().unwrap_or(100.0);
+                let mut prev_e = 0.0;
+                let mut prev_soc = soc0;
+                let mut bad = false;
+                let mut clamps = 0;
+                for (i, e) in ids.iter().enumerate() {
+                    let mph = dv.speeds_kph[*e] / 1.609344;
+                    let mut lo = f64::INFINITY;
+                    let mut hi = f64::NEG_INFINITY;
+                    for f in [0.999, 0.9995, 1.0, 1.0005, 1.001] {
+                        if let Ok((x, _)) = rec.prediction_model.predict((Speed::new(mph * f), SpeedUnit::MilesPerHour), (Grade::new(dv.grades[*e]), GradeUnit::Decimal)) {
+                            lo = lo.min(x.as_f64());
+                            hi = hi.max(x.as_f64());
+                        }
+                    }
+                    let (a, b) = (lo * veh.adjustment * miles(*e), hi * veh.adjustment * miles(*e));
+                    let (lo_e, hi_e) = (a.min(b), a.max(b));
+                    let m = lo_e.abs().max(hi_e.abs());
+                    let now_e = state_of(&feats[i], se);
+                    let de = now_e - prev_e;
+                    if !(de >= lo_e - 2e-3 * m - 1e-12 && de <= hi_e + 2e-3 * m + 1e-12) {
+                        rep.violate(&format!("C08|shipped|{}|edge-energy-off", veh.kind), format!("E1 vehicle {name}, edge #{i} ({e}: {:.1} m at {} km/h, grade {}): energy changed by {de} {want_unit}; the vehicle's model x adjustment x length gives [{lo_e}, {hi_e}]", dv.net.edges[*e].len_m, dv.speeds_kph[*e], dv.grades[*e]), replay);
+                        bad = true;
+                        break;
+                    }
+                    if let (Some(sb), Some(cap)) = (sb, veh.capacity_kwh) {
+                        let raw = prev_soc - 100.0 * de / cap;
+                        let want = raw.clamp(0.0, 100.0);
+                        if raw != want {
+                            clamps += 1;
+                        }
+                        let got = state_of(&feats[i], sb);
+                        if !rel_close(got, want, 1e-9, 1e-9) {
+                            rep.violate("C08|shipped|bev|battery-state", format!("E3 vehicle {name} ({cap} kWh), edge #{i} ({e}): battery state {got} % after {prev_soc} % and {de} kWh, expected {want} %"), replay);
+                            bad = true;
+                            break;
+                        }
+                        prev_soc = got;
+                    }
+                    prev_e = now_e;
+                }
+                if bad {
+                    continue;
+                }
+                let ts = &r["route"]["traversal_summary"];
+                if !rel_close(ts[feature].as_f64().unwrap_or(f64::NAN), prev_e, 1e-12, 1e-12) {
+                    rep.violate(&format!("C08|shipped|{}|summary", veh.kind), format!("traversal_summary {} but the last edge leaves {feature} at {prev_e}", ts), replay);
+                    continue;
+                }
+                rep.count(&format!("shipped_{}_routes_confirmed", veh.kind), 1);
+                rep.seen("shipped_vehicles", name.to_string());
+                if ids.len() >= 3 {
+                    rep.nontrivial(hash_str(&format!("shipped|{name}|{ids:?}|{soc0}|{clamps}")));
                 }
                 continue;
             }
@@ -564,7 +726,7 @@ fn batch_case(prop: &str, cfg: Cfg, app: &CompassApp, dv: &Denver, case_no: usiz
         let proj = |r: &Value| -> String {
             let ids: Vec<u64> = r["route"]["path"]["features"].as_array().map(|a| a.iter().filter_map(|f| f["properties"]["edge_id"].as_u64()).collect()).unwrap_or_default();
             let ts = &r["route"]["traversal_summary"];
-            format!("{}|{}|{}|{ids:?}|{:.9e}|{:.9e}", r["request"]["qid"], r["request"]["name"], r.get("error").map(|e| e.to_string()).unwrap_or_default(), ts["distance"].as_f64().unwrap_or(-1.0), ts["time"].as_f64().unwrap_or(-1.0))
+            format!("{}|{}{}|{}|{ids:?}|{:.9e}|{:.9e}|{}", r["request"]["qid"], r["request"]["name"], r["request"]["model_name"], r.get("error").map(|e| e.to_string()).unwrap_or_default(), ts["distance"].as_f64().unwrap_or(-1.0), ts["time"].as_f64().unwrap_or(-1.0), ["energy_liquid", "energy_electric", "battery_state"].iter().map(|k| format!("{:.9e}", ts[*k].as_f64().unwrap_or(-1.0))).collect::<Vec<_>>().join("/"))
         };
         let mut got: Vec<String> = responses.iter().map(proj).collect();
         got.sort();
@@ -646,13 +808,13 @@ fn graph_case(rep: &mut Report, dv: &Denver) {
     rep.nontrivial(hash_str("shipped|graph"));
 }
 
-pub const PROPS: [&str; 9] = ["C01", "C02", "C03", "C05", "C06", "C15", "C16", "C17", "C20"];
+pub const PROPS: [&str; 10] = ["C01", "C02", "C03", "C05", "C06", "C08", "C15", "C16", "C17", "C20"];
 
 pub fn rule_text(prop: &str) -> Option<String> {
     if !PROPS.contains(&prop) {
         return None;
     }
-    Some(" shipped-configuration slice: the repository's own example (downtown Denver, 482 vertices / 1342 edges, gzip tables) under the shipped osm_default_distance.toml and osm_default_speed.toml exactly as a user gets them (vertex matching with a 0.2 km tolerance, grid search, load balancer, turn delays, geo_json route output, summary and identifier plugins); batches of coordinate queries placed 0 m - 5 km from real vertices, a quarter of them with the documented grid over objectives, run with the configured or an overridden parallelism; the reference is the monitor's own reading of the gzip files (edge list, speeds, headings, geometries, identifiers), its own turn classes, great circle and shortest-path search.".into())
+    Some(" shipped-configuration slice: the repository's own example (downtown Denver, 482 vertices / 1342 edges, gzip tables) under the shipped osm_default_distance.toml, osm_default_speed.toml and (C03, C06, C08, C17) osm_default_energy.toml with its twenty bundled vehicles, exactly as a user gets them (vertex matching with a 0.2 km tolerance, grid search, load balancer, turn delays, geo_json route output, summary and identifier plugins); batches of coordinate queries placed 0 m - 5 km from real vertices, a quarter of them with the documented grid over objectives, run with the configured or an overridden parallelism; the reference is the monitor's own reading of the gzip files (edge list, speeds, headings, geometries, identifiers), its own turn classes, great circle and shortest-path search.".into())
 }
 
 /// run the shipped-configuration slice for one property and return its report (empty for properties without one)
@@ -673,10 +835,28 @@ pub fn run(prop: &str, tier: Tier, seed: u64) -> Report {
         return rep;
     }
     let cfgs: &[Cfg] = match prop {
-        "C17" => &[Cfg::Speed],
-        "C16" | "C06" => &[Cfg::DistanceAsShipped, Cfg::Distance, Cfg::Speed],
+        "C17" => &[Cfg::Speed, Cfg::Energy],
+        "C08" => &[Cfg::Energy],
+        "C03" => &[Cfg::Distance, Cfg::Speed, Cfg::Energy],
+        "C16" => &[Cfg::DistanceAsShipped, Cfg::Distance, Cfg::Speed],
+        "C06" => &[Cfg::DistanceAsShipped, Cfg::Distance, Cfg::Speed, Cfg::Energy],
         _ => &[Cfg::Distance, Cfg::Speed],
     };
+    let mut models: Models = Default::default();
+    if prop == "C08" {
+        match vehicles() {
+            Ok(vs) => {
+                for v in vs {
+                    let rec = if v.kind == "ice" || v.kind == "bev" { oracle_model(&v).ok() } else { None };
+                    models.insert(v.name.clone(), (v, rec));
+                }
+            }
+            Err(e) => {
+                rep.inconclusive(format!("the shipped energy configuration cannot be read by the monitor: {e}"));
+                return rep;
+            }
+        }
+    }
     for cfg in cfgs {
         let app = match catch(|| cfg.build()) {
             Ok(Ok(a)) => a,
@@ -689,11 +869,14 @@ pub fn run(prop: &str, tier: Tier, seed: u64) -> Report {
                 continue;
             }
         };
-        let n = tier.n(if prop == "C06" { 6 } else { 12 }, if prop == "C06" { 60 } else { 200 });
+        let mut n = tier.n(if prop == "C06" { 6 } else { 12 }, if prop == "C06" { 60 } else { 200 });
+        if *cfg == Cfg::Energy && prop != "C08" || prop == "C17" {
+            n = (n / 3).max(1);
+        }
         let base = Rng::new(seed ^ 0x5a17_ed00 ^ hash_str(cfg.name()));
         for i in 0..n {
             let mut rng = base.fork(i as u64 + 1);
-            batch_case(prop, *cfg, &app, dv, i, &mut rng, &mut rep, tier);
+            batch_case(prop, *cfg, &app, dv, &models, i, &mut rng, &mut rep, tier);
         }
     }
     rep
